@@ -319,6 +319,34 @@ def run(ctx):
     else:
         ctx.violated(r4, mk, "stitch_pars", "the stitcher does not default to the supplied fixed values in [fixed, variable] order", node=mk.node)
 
+    # end to end: shim -> _TensorViewer -> _make_stitch_pars all interpreted (object model); the stitcher shim returns,
+    # applied to the free parameters, must put every fixed value at its own index and the free ones in between
+    from . import viewers as _viewers
+    from ..alg import Closure as _Closure
+    for fixed_at in ([0, 2], [1], [2, 3], [0, 1, 3]):
+        npar = 4
+        free_at = [j for j in range(npar) if j not in fixed_at]
+        site = f"{COM}::shim -> stitcher [fixed at {fixed_at} of {npar}]"
+        try:
+            w = _viewers.world(repo, {"_get_tensor_shim": lambda a, k: PyFunc(lambda a2, k2: Obj("OBJECTIVE"), "wrap_objective")})
+            w.add_func(mk).add_func(shim)
+            pdf_ = Obj("pdf", {"config": Obj("config", {"npars": Poly.const(npar)})})
+            out = w.call_func(shim, [Obj("objective"), Obj("data"), pdf_, [Poly.atom(f"i{j}") for j in range(npar)], [Poly.atom(f"b{j}") for j in range(npar)]],
+                              {"fixed_vals": [(Poly.const(j), Poly.atom(f"v{j}")) for j in fixed_at], "do_grad": False, "do_stitch": True})
+            mkw, st = out
+            if not isinstance(st, _Closure):
+                raise Undecided("shim does not return a stitcher function")
+            full = st.interp.call_function(st.node, [[Poly.atom(f"q{j}") for j in free_at]], {})
+            want = [f"v{j}" if j in fixed_at else f"q{j}" for j in range(npar)]
+            got = [str(to_poly(x)) for x in full]
+            x0 = [str(to_poly(x)) for x in mkw["x0"]]
+            if got == want and x0 == [f"i{j}" for j in free_at]:
+                ctx.holds(r4, site, f"stitch_pars(free) = {want}")
+            else:
+                ctx.violated(r4, shim, f"stitched parameter vector [fixed at {fixed_at}]", "the vector the objective is evaluated at does not hold every fixed parameter at its supplied value at its own index (with the free parameters, in order, at the others)", expected=str(want), found=str(got))
+        except (Undecided, KeyError, TypeError, ValueError, IndexError, AttributeError) as e:
+            ctx.unrecognised(r4, shim, f"stitcher [fixed at {fixed_at}]", f"not interpretable: {type(e).__name__}: {e}")
+
     # ------------------------------------------------------------ R5
     pp = mix.methods["_internal_postprocess"]
     try:
